@@ -57,6 +57,9 @@ func c19TU64Len(v uint64) int {
 	return n
 }
 
+// c19MaxJudgedAmt * 1e6 ppm stays below 2^63.
+const c19MaxJudgedAmt = 5_000_000_000_000
+
 type c19Result struct {
 	rt    *route.Route
 	err   error
@@ -220,6 +223,16 @@ func c19Judge(t *rapid.T, st *vstats.Collector, q *c19Query, ex c19Expect,
 			kind = kind[:40]
 		}
 		add("error@" + res.stage + ":" + kind)
+		st.Case(fp, false, labels, nil)
+
+		return c19Facts{}, false
+	}
+
+	// Domain guard: beyond this lnd's 64-bit fee products can wrap (see
+	// assumptions); such routes are not judged.
+	if uint64(res.rt.TotalAmount) > c19MaxJudgedAmt {
+		st.Count("outside_domain", 1)
+		add("outside_domain_amount")
 		st.Case(fp, false, labels, nil)
 
 		return c19Facts{}, false
